@@ -206,16 +206,21 @@ end
 /-- the three places where the implementation deviates from the intended rules -/
 structure Rules where
   /-- a required argument may be missing on a selection WITH a selection set
-  (`can_have_missing_args = true` for every object selection) -/
+  (`can_have_missing_args = true` for every object selection; repaired by 8835cbc) -/
   linkedMayMissArgs : Bool
   /-- an argument called `id` is never reported as undefined (`validate_no_extraneous_arguments`) -/
   idArgExempt : Bool
-  /-- a variable can be passed to an argument whose type contains a nullable list -/
+  /-- a variable can be passed to an argument whose type contains a nullable list (`false`: before
+  1645c28 `union_contains` compared the source location embedded in a `Plural` variant) -/
   nullableListVars : Bool
   deriving DecidableEq, Repr
 
 def Rules.intended : Rules := ⟨false, false, true⟩
-def Rules.asImplemented : Rules := ⟨true, true, false⟩
+/-- the validators of /repo as they are now: after `fix:` 8835cbc (object selections may not miss required
+arguments) and `fix:` 1645c28 (list annotations compared as types) one deviation is left -/
+def Rules.asImplemented : Rules := ⟨false, true, true⟩
+/-- the validators before those two repairs -/
+def Rules.beforeFixes : Rules := ⟨true, true, false⟩
 
 /-- `TypeAnnotationDeclaration::is_nullable` -/
 def annNullable : TypeRef → Bool
@@ -225,8 +230,8 @@ def annNullable : TypeRef → Bool
 /-- `variable_type_satisfies_argument_type supplied target`, on GraphQL type references.
 `T!` is `Scalar`, `T` is `Union{nullable, {Scalar T}}`, `[X]!` is `Plural`, `[X]` is
 `Union{nullable, {Plural X}}`; a `Plural` union VARIANT carries the source location of the list
-annotation and is compared with it, so that no variable ever satisfies a nullable list
-(`nullableListVars = false`).  With `nullableListVars = true` list annotations are compared
+annotation; before 1645c28 it was compared with it, so that no variable ever satisfied a nullable
+list (`nullableListVars = false`).  With `nullableListVars = true` (now) list annotations are compared
 structurally. -/
 def varSat (r : Rules) : TypeRef → TypeRef → Bool
   | s, .nonNull (.named t) => s == .nonNull (.named t)
